@@ -7,7 +7,7 @@
    order of filepath.Walk is the order of the entries in the tree. *)
 From Coq Require Import List NArith ZArith Arith Bool Permutation String.
 From RareV Require Import Base.Hex Model.Lines Model.Batch Model.Pipeline Model.Exit Model.Input Gen.GenC06
-  Proofs.PipelineProof Proofs.InputWalk Proofs.InputProof Proofs.ExitProof.
+  Proofs.PipelineProof Proofs.PipelineEnd Proofs.InputWalk Proofs.InputProof Proofs.ExitProof.
 Import ListNotations.
 
 (* clause "each path argument, each glob expansion and (with -R) each regular file below a directory
@@ -70,7 +70,7 @@ Print Assumptions C06_gzip_decoded.
    delivered by all mentions that opened (up to the failure for those that failed later); the keys
    consumed are those of the sequential evaluation; the semaphore is free and every reader is done *)
 Theorem C06_failures_isolated : forall gunzip probe K cl c z bsz pns nw s, cfg_ok c -> nw >= 1 ->
-  reach K cl c (init K (map (source_of gunzip probe z bsz) pns) nw) s -> (forall s', ~ step K cl c s s') ->
+  reach K cl c (init K (map (Input.source_of gunzip probe z bsz) pns) nw) s -> (forall s', ~ step K cl c s s') ->
   errs K s = list_sum (map (spec_failed gunzip z) pns) /\
   Permutation (processed K s) (flat_map (spec_lines_of gunzip z) pns) /\
   Permutation (consumed K s) (seq_keys K cl (flat_map (spec_lines_of gunzip z) pns)) /\
@@ -114,6 +114,23 @@ Theorem C06_cli_projection : forall fs glob gunzip probe flush i srcs lg c nw s,
     = co_exit (cli_model fs glob gunzip probe flush i).
 Proof. exact cli_projection. Qed.
 Print Assumptions C06_cli_projection.
+
+(* composition with the scanner (C04) and read chunking: for every read script and buffer size under
+   which the reader hands over the whole opened stream and ends in an error exactly when the stream
+   does, the source that C01_end_to_end is about is the source used above *)
+Theorem C06_source_chunked : forall gunzip probe z bsz bufsize scr pn,
+  script_reads_all gunzip probe z bufsize scr pn ->
+  match open_input gunzip z (probe (fst pn)) (snd pn) with
+  | Some _ => PipelineEnd.source_of (indesc_of gunzip probe z bsz bufsize scr pn) = Input.source_of gunzip probe z bsz pn
+  | None => fst (fst (PipelineEnd.source_of (indesc_of gunzip probe z bsz bufsize scr pn))) = false /\
+            fst (fst (Input.source_of gunzip probe z bsz pn)) = false
+  end.
+Proof. exact source_chunked. Qed.
+Print Assumptions C06_source_chunked.
+(* the hypothesis is satisfiable: a truncated gzip stream "a\nb" read in chunks of 2 bytes ending in an error *)
+Example C06_script_example :
+  script_reads_all (fun _ => Some ([97; 10; 98]%N, true)) (fun _ => 0) true 4 [(2, RNil); (2, RErr)] ([120]%N, Found (TFile [31; 139]%N)).
+Proof. unfold script_reads_all. simpl. intros o H. vm_compute in H. inversion H; subst. split; reflexivity. Qed.
 
 (* clause "`-` or no argument reads standard input under the name <stdin>": standard input is used
    iff there is no argument or the FIRST argument is "-"; then it is the only source (further
